@@ -570,6 +570,8 @@ class DateTimeLike(Atomic):
         return {LT: GT, GT: LT}.get(r, r)
 
     def eq(self, a, b):
+        if "tz-14h-boundary-not-indeterminate" in VARIANTS:
+            return self.cmp(a, b) == EQ
         return a[2] == b[2] and a[1] == b[1]
 
     def order_unspec(self, v):
